@@ -325,6 +325,10 @@ def crash_family(res, ctx, tag, kinds, n_quick, n_thorough, io_mix=(0, 0, 0, 0, 
 
 def check_C03(res, ctx):
     crash_family(res, ctx, "C03", ["mixed", "mixed", "batch", "sync-batch"], 10, 64)
+    # the crash enumeration is sequential; crashes that need a second goroutine (a Merge scanning while a batch is open and the
+    # process dies; writes racing with a Merge and a power failure after it) are the scenarios D and E of xkv batchvis
+    from . import conccheck
+    conccheck.check_batch_visibility(res, ctx, [(1, 0)] if ctx.quick else [(1, 0), (2, 0), (3, 0)])
     return "every intercepted I/O event of short workloads is a crash point (process death image) and, for files with an unsynced tail, " \
            "power-loss images cut to synced / middle / all-but-one byte (thorough: every length for tails <= 300 bytes and +-12 around block " \
            "boundaries); oracle: Open succeeds, the recovered mapping is the reference state after j acknowledged mutations with " \
@@ -486,6 +490,9 @@ def check_C05(res, ctx):
 
 def check_C06(res, ctx):
     from . import conccheck
+    # "writes and deletes that race with the merge are kept with their final live outcome" - also across a process death
+    # with a batch open, and across a power failure after the merge (xkv batchvis scenarios D and E)
+    conccheck.check_batch_visibility(res, ctx, [(3, 0)] if ctx.quick else [(1, 0), (2, 0), (3, 0)])
     n = 24 if ctx.quick else 400
     for i in range(n):
         rng = rng_for(ctx.seed, "C06", i)
